@@ -269,6 +269,23 @@ def c_fuse(ctx, case):
             return
         if not check_fusion(ctx, case, cur_a, B, fused, mapping, f"fusion{k}"):
             return
+        # three steps: the stream just returned is extended IN PLACE by the caller (it is the
+        # caller's list) and handed back -- the very same object -- as the first stream of the
+        # next fusion, whose second stream uses the id that was appended
+        if isinstance(fused, list) and all(s_.id != "appended_by_caller" for s_ in fused):
+            ctx.count("returned_stream_extended_in_place")
+            fused.append(Nop(id="appended_by_caller", depends_on=frozenset(s_.id for s_ in fused[:1])))
+            C = [Nop(id="appended_by_caller", depends_on=frozenset()),
+                 Nop(id="c_tail", depends_on=frozenset(["appended_by_caller"]))]
+            try:
+                f3, m3 = fuse_statement_streams_with_unique_ids(fused, C)
+            except Exception as ex:  # noqa: BLE001
+                ctx.fail("C20.fuse", case, f"raised-after-extension:{type(ex).__name__}", str(ex))
+                return
+            ok3 = check_fusion(ctx, case, list(fused), C, f3, m3, f"fusion{k}-after-in-place-extension")
+            fused.pop()
+            if not ok3:
+                return
         # the same operation under its earlier (still exported, deprecated) name
         import warnings
         from pymbolic.imperative.transform import fuse_instruction_streams_with_unique_ids
@@ -506,6 +523,7 @@ def workload(ctx):
                     ctx.run("C20.dot", (list(order), edges))
         ctx.set_exhaustive("all DAGs on <= 5 nodes, forward and reversed listing")
     ctx.floor("long_chains", 60)
+    ctx.floor("returned_stream_extended_in_place", 500)
     ctx.floor("long_streams", 15)
     ctx.floor("fusions_through_old_name", 1500)
     ctx.floor("rw_checks", 3000)
